@@ -1,5 +1,6 @@
 import MoneroModel.Proofs.TxComplete2
 import MoneroModel.Proofs.LenProofs
+import MoneroModel.Proofs.TxSound1
 open Monero
 /-! # C02 — well-formed values survive serialise-then-parse; length accounting is exact
 
@@ -42,6 +43,18 @@ theorem C02_len_rct_prunable (p : Prunable) (ty : Nat) : lenPrunable p ty = (enc
 theorem C02_len_transaction (t : Tx) : lenTx t = (encTx t).length := lenTx_eq t
 theorem C02_len_header (h : Header) : lenHeader h = (encHeader h).length := lenHeader_eq h
 theorem C02_len_block (b : Block) : lenBlock b = (encBlock b).length := lenBlock_eq b
+
+/-- strings: length-prefixed UTF-8 bytes; round trip on valid UTF-8 within the cap, reported length = bytes written -/
+theorem C02_complete_string (valid : Bytes → Bool) :
+    Complete (fun s => valid s = true ∧ s.length * sizes.u8 ≤ CAP ∧ s.length < 2^64) encString (stringDec valid) := by
+  intro s r ⟨hv, hc, hl⟩
+  unfold stringDec encString
+  have e : encVarint s.length ++ s ++ r = encVec (fun b => [b]) s ++ r := by
+    simp [encVec, flatten_singletons']
+  rw [e, bind_eq (complete_vec sizes.u8 (fun _ => True) (fun b => [b]) u8 complete_u8 s r (fun _ _ => trivial) hc hl)]
+  simp [hv, pure']
+theorem C02_len_string (s : Bytes) : lenString s = (encString s).length := by
+  simp [lenString, encString, lenVarint_eq]
 
 /-- strict parsing (`deserialize`) of an encoding followed by any non-empty `t` fails -/
 theorem C02_strict {α} (wf : α → Prop) (enc : α → Bytes) (dec : Dec α) (hc : Complete wf enc dec)
